@@ -1389,8 +1389,11 @@ var negOp = map[token.Token]token.Token{token.LSS: token.GEQ, token.GEQ: token.L
 // under which the refusal happens. An inverted condition with swapped branches, `if !(a == b)`, an early `return nil`
 // on the good case followed by the error all give the same answer. 0 when the comparison does not govern a refusal.
 func refusalOp(info *types.Info, fd *ast.FuncDecl, parents map[ast.Node]ast.Node, be *ast.BinaryExpr) token.Token {
-	neg := false
-	var cur ast.Node = be
+	return refusalOpFrom(info, fd, parents, be, be, false, 0)
+}
+
+// refusalOpFrom climbs from cur (a node that stands for the comparison be, under neg negations so far).
+func refusalOpFrom(info *types.Info, fd *ast.FuncDecl, parents map[ast.Node]ast.Node, be *ast.BinaryExpr, cur ast.Node, neg bool, depth int) token.Token {
 	for {
 		par := parents[cur]
 		switch p := par.(type) {
@@ -1609,32 +1612,10 @@ func refusalOp(info *types.Info, fd *ast.FuncDecl, parents map[ast.Node]ast.Node
 						}
 						return true
 					})
-					if !reassigned && len(uses) == 1 {
-						// only when the use stands in a condition (otherwise the value convention below applies)
-						inCond := false
-						var c2 ast.Node = uses[0]
-						for q := parents[c2]; q != nil; c2, q = q, parents[q] {
-							switch qx := q.(type) {
-							case *ast.ParenExpr:
-								continue
-							case *ast.UnaryExpr:
-								if qx.Op == token.NOT {
-									continue
-								}
-							case *ast.BinaryExpr:
-								if qx.Op == token.LAND || qx.Op == token.LOR {
-									continue
-								}
-							case *ast.IfStmt:
-								inCond = qx.Cond == c2
-							case *ast.ForStmt:
-								inCond = qx.Cond == c2
-							}
-							break
-						}
-						if inCond {
-							cur = uses[0]
-							continue
+					if !reassigned && len(uses) == 1 && depth < 3 {
+						// (when the use governs no refusal, the value convention below still tells == from !=)
+						if r := refusalOpFrom(info, fd, parents, be, uses[0], neg, depth+1); r != 0 {
+							return r
 						}
 					}
 				}
